@@ -658,3 +658,8 @@ func (nh *NodeHost) VerifTransport() *transport.Transport {
 func (nh *NodeHost) VerifSnapshotDir(shardID uint64, replicaID uint64) string {
 	return nh.env.GetSnapshotDir(nh.nhConfig.GetDeploymentID(), shardID, replicaID)
 }
+
+// VerifSetSyncTaskInterval changes the interval (in milliseconds of logical
+// time) of the periodic Sync task of on-disk state machines, for nodes created
+// afterwards.
+func VerifSetSyncTaskInterval(ms uint64) { syncTaskInterval = ms }
